@@ -650,5 +650,5 @@ class TestSuiteWriter:
             output = pattern.sub(f"import {canonical_name}  # noqa: F401", output, count=1)
             output = _COVERAGE_BY_IMPORT_COMMENT + output
 
-        out_file.write_text(_LICENSE_HEADER + "\n" + output)
+        out_file.write_text(_LICENSE_HEADER + "\n" + output, encoding="utf-8")
         return out_file
